@@ -247,3 +247,25 @@ Theorem C12_source_thin_bodies :
   thin_of "Clone for GenericArrayImplEven<T,U>" "clone" = Some "unsafe { core :: hint :: unreachable_unchecked () }" /\
   thin_of "Clone for GenericArrayImplOdd<T,U>" "clone" = Some "unsafe { core :: hint :: unreachable_unchecked () }".
 Proof. repeat split. Qed.
+
+(* ---- T1: what the traits of this property declare in the source now (coq/gen/GenSigs.v gen_trait_headers):
+        every length-relating trait: a correct program generic over one of them needs exactly these bounds, and the
+        result lengths are the ones the associated-type bounds state ---- *)
+From Coq Require Import String.
+From GA Require Import SigDefs.
+From GAGen Require Import GenSigs.
+Local Open Scope string_scope.
+
+Theorem C12_source_trait_headers :
+  trait_header_of "pub unsafe trait ArrayLength" = Some ["Self:'static"; "Self:Unsigned"; "type ArrayType<T>:Sealed"] /\
+  trait_header_of "pub trait IntoArrayLength" = Some ["type ArrayLength:ArrayLength"] /\
+  trait_header_of "pub unsafe trait GenericSequence<T>" = Some ["Self:IntoIterator"; "Self:Sized"; "fn generate < F > (f : F) -> Self :: Sequence where F : FnMut (usize) -> T"; "fn inverted_zip < B , U , F > (self , lhs : GenericArray < B , Self :: Length > , mut f : F ,) -> MappedSequence < GenericArray < B , Self :: Length > , B , U > where GenericArray < B , Self :: Length > : GenericSequence < B , Length = Self :: Length > + MappedGenericSequence < B , U > , Self : MappedGenericSequence < T , U > , F : FnMut (B , Self :: Item) -> U , {default}"; "fn inverted_zip2 < B , Lhs , U , F > (self , lhs : Lhs , mut f : F) -> MappedSequence < Lhs , B , U > where Lhs : GenericSequence < B , Length = Self :: Length > + MappedGenericSequence < B , U > , Self : MappedGenericSequence < T , U > , F : FnMut (Lhs :: Item , Self :: Item) -> U , {default}"; "type Length:ArrayLength"; "type Sequence:FromIterator<T>"; "type Sequence:GenericSequence<T,Length=Self::Length>"] /\
+  trait_header_of "pub trait MappedGenericSequence<T,U>" = Some ["Self:GenericSequence<T>"; "type Mapped:GenericSequence<U,Length=Self::Length>"] /\
+  trait_header_of "pub unsafe trait Lengthen<T>" = Some ["Self:GenericSequence<T>"; "Self:Sized"; "fn append (self , last : T) -> Self :: Longer"; "fn prepend (self , first : T) -> Self :: Longer"; "type Longer:Shorten<T,Shorter=Self>"] /\
+  trait_header_of "pub unsafe trait Shorten<T>" = Some ["Self:GenericSequence<T>"; "Self:Sized"; "fn pop_back (self) -> (Self :: Shorter , T)"; "fn pop_front (self) -> (T , Self :: Shorter)"; "type Shorter:Lengthen<T,Longer=Self>"] /\
+  trait_header_of "pub unsafe trait Split<T,K>" = Some ["K:ArrayLength"; "Self:GenericSequence<T>"; "fn split (self) -> (Self :: First , Self :: Second)"; "type First:GenericSequence<T>"; "type Second:GenericSequence<T>"] /\
+  trait_header_of "pub unsafe trait Concat<T,M>" = Some ["M:ArrayLength"; "Self:GenericSequence<T>"; "fn concat (self , rest : Self :: Rest) -> Self :: Output"; "type Output:GenericSequence<T>"; "type Rest:GenericSequence<T,Length=M>"] /\
+  trait_header_of "pub unsafe trait Remove<T,N>" = Some ["N:ArrayLength"; "Self:GenericSequence<T>"; "fn remove (self , idx : usize) -> (T , Self :: Output) {default}"; "fn swap_remove (self , idx : usize) -> (T , Self :: Output) {default}"; "type Output:GenericSequence<T>"; "unsafe fn remove_unchecked (self , idx : usize) -> (T , Self :: Output)"; "unsafe fn swap_remove_unchecked (self , idx : usize) -> (T , Self :: Output)"] /\
+  trait_header_of "pub unsafe trait Flatten<T,N,M>" = Some ["N:ArrayLength"; "N:Mul<M>"; "Prod<N,M>:ArrayLength"; "Self:GenericSequence<GenericArray<T,N>,Length=M>"; "fn flatten (self) -> Self :: Output"; "type Output:GenericSequence<T,Length=Prod<N,M>>"] /\
+  trait_header_of "pub unsafe trait Unflatten<T,NM,N>" = Some ["N:ArrayLength"; "NM:ArrayLength"; "NM:Div<N>"; "Quot<NM,N>:ArrayLength"; "Self:GenericSequence<T,Length=NM>"; "fn unflatten (self) -> Self :: Output"; "type Output:GenericSequence<GenericArray<T,N>,Length=Quot<NM,N>>"].
+Proof. repeat split. Qed.
